@@ -10,7 +10,7 @@
    for any service kind k; [repaired cf]: after them.
    PARTIAL: goroutine identity, timer channels and virtual time are runtime facts: the cool-down is
    one transition [TTimer]; what service.Start does inside is abstracted to start-once / fresh / sticky. *)
-From Verif Require Import Base.Util Model.Lifecycle Proofs.LifecycleProofs Proofs.LifecyclePluginProofs Gen.Generated.
+From Verif Require Import Base.Util Model.Lifecycle Proofs.LifecycleProofs Proofs.LifecyclePluginProofs Gen.Generated Gen.GeneratedC18.
 From Coq Require Import Arith PeanoNat ZArith Lia.
 
 (* ---------------------------------------------------------------- panic containment *)
@@ -156,6 +156,11 @@ Print Assumptions C18_checker_sound.
 Theorem C18_gen_cooldown : (5000000000 <= PanicRestartWait)%Z.
 Proof. vm_compute. discriminate. Qed.
 Print Assumptions C18_gen_cooldown.
+
+(* the model's one-slot buffer [s_buf : option msg] is the capacity of recoverer.stopped in the source *)
+Theorem C18_gen_stopped_capacity : RecovererStoppedCap = 1%Z.
+Proof. vm_compute. reflexivity. Qed.
+Print Assumptions C18_gen_stopped_capacity.
 
 (* ---------------------------------------------------------------- non-vacuity *)
 (* a repaired recoverer around a start-once service: start, Close while the service runs; the state is
